@@ -315,6 +315,12 @@ theorem lemma_rw_inv (ops : List WOp) (rw : RW)
           simp [RW.step, hw, hu, hs, Wire.step, RW.StatusCode]
         · obtain ⟨hst, hne⟩ := h2 hw
           simp [RW.step, hw, Wire.step, hst, h3, RW.StatusCode, hne] at *
+      | flush =>
+        cases hw : rw.written
+        · obtain ⟨hu, hs, hz⟩ := h1 hw
+          simp [RW.step, hw, hu, hs, hz, Wire.step, RW.StatusCode]
+        · obtain ⟨hst, hne⟩ := h2 hw
+          simp [RW.step, hw, Wire.step, hst, h3, RW.StatusCode, hne] at *
       | readFrom n =>
         cases hw : rw.written
         · obtain ⟨hu, hs, hz⟩ := h1 hw
@@ -347,6 +353,13 @@ theorem asIs_k08g_informational :
     (({} : RW).runAsIs [.header 103, .header 404, .write 4]).StatusCode = 103 ∧
     (({} : RW).runAsIs [.header 103, .header 404, .write 4]).under.clientStatus = 200 ∧
     (({} : RW).run [.header 103, .header 404, .write 4]).under.clientStatus = 404 := by decide
+
+/-- K08h, as shipped: Flush committed an implied 200 underneath, the wrapper did not notice and recorded the 500 of a
+    later WriteHeader that never reached the client -/
+theorem asIs_k08h_flush :
+    (({} : RW).runAsIs [.flush, .header 500, .write 4]).StatusCode = 500 ∧
+    (({} : RW).runAsIs [.flush, .header 500, .write 4]).under.clientStatus = 200 ∧
+    (({} : RW).run [.flush, .header 500, .write 4]).StatusCode = 200 := by decide
 
 /-- non-vacuity: the probe programs are valid op sequences and exercise every branch of the wrapper -/
 example : (({} : RW).run (Prog.twice 201 17).ops).StatusCode = 201 ∧ (({} : RW).run (Prog.twice 201 17).ops).size = 17 := by decide
